@@ -56,6 +56,7 @@ var fixed = []Case{
 	{"fixed/script-attrs", "package x\n\ntempl x(s string) {\n\t<script class={ \"é\", s } style={ s } src={ f(\n\t\ts,\n\t) } onload={ h(s) } async?={ b } { attrs... }\n\t\tif s != \"\" {\n\t\t\tclass={ s }\n\t\t\tdata-x={ s }\n\t\t} else {\n\t\t\tid={ \"ü\" + s }\n\t\t}\n\t>\n\t\tconst v = {{ s }};\n\t</script>\n}\n"},
 	{"fixed/style-attrs", "package x\n\ntempl x(s string) {\n\t<style class={ \"é\", s } style={ s } href={ f(\n\t\ts,\n\t) } onload={ h(s) } disabled?={ b } { attrs... }\n\t\tif s != \"\" {\n\t\t\tclass={ s }\n\t\t\tdata-x={ s }\n\t\t} else {\n\t\t\tid={ \"ü\" + s }\n\t\t}\n\t>\n\t\tp { color: red; }\n\t</style>\n}\n"},
 	{"fixed/void-attrs", "package x\n\ntempl x(s string) {\n\t<input class={ \"é\", s } style={ s } value={ f(\n\t\ts,\n\t) } onchange={ h(s) } checked?={ b } { attrs... }\n\t\tif s != \"\" {\n\t\t\tclass={ s }\n\t\t} else {\n\t\t\tid={ \"ü\" + s }\n\t\t}\n\t/>\n\t<div class={ s } { attrs... }/>\n\t<br class={ s }>\n}\n"},
+	{"fixed/empty-expressions", "package x\n\nscript ping() {\n\tconsole.log(1);\n}\n\ncss c() {\n\tcolor: red;\n}\n\ntempl x() {\n\t<p a={ } b={} onclick={ ping() }>{ }</p>\n}\n\nscript pong(  ) {\n\tconsole.log(2);\n}\n"},
 	{"fixed/same-line-templates", "package x\n\ntempl a() {<p>a</p>}templ b() {<p>b</p>}\n"},
 }
 
@@ -218,6 +219,7 @@ func Run(c *core.Ctx) {
 			tot.MapEntries += r.st.MapEntries
 			tot.StrayEqual += r.st.StrayEqual
 			tot.StrayNoSource += r.st.StrayNoSource
+			tot.BlankMapped += r.st.BlankMapped
 			for k, v := range r.st.Slots {
 				s := slots[k]
 				s[0], s[1], s[2] = s[0]+v[0], s[1]+v[1], s[2]+v[2]
@@ -255,6 +257,10 @@ func Run(c *core.Ctx) {
 	c.Set("map_entries_scanned", tot.MapEntries)
 	c.Set("stray_entries_equal_byte", tot.StrayEqual)
 	c.Set("stray_entries_without_source_position", tot.StrayNoSource)
+	c.Set("empty_expressions_with_entry_checked", tot.BlankMapped)
+	if tot.BlankMapped == 0 {
+		c.Inconclusive("no accepted program carried a mapped empty expression (script f() …)")
+	}
 	slotOut := map[string]any{}
 	for k, v := range slots {
 		slotOut[k] = map[string]int{"expressions": v[0], "multi_line": v[1], "multi_byte": v[2]}
@@ -324,7 +330,7 @@ func Run(c *core.Ctx) {
 	}
 }
 
-var positionKinds = []string{"oracle-panic", "mismatch", "uncovered", "unmapped", "out-of-source", "target-out-of-range", "target-linecol",
+var positionKinds = []string{"oracle-panic", "mismatch", "outside-declaration", "uncovered", "unmapped", "out-of-source", "target-out-of-range", "target-linecol",
 	"nonconsecutive", "roundtrip", "eol-unmapped", "eol-position", "eol-roundtrip", "stray"}
 var symbolKinds = []string{"gen-unparsable", "symbol-missing", "symbol-range", "symbol-enclose"}
 
